@@ -9,7 +9,7 @@ from common import Ctx
 ID = "C01"
 PROPS = ["props/C01.v"]
 EXTRACTS = ["Solver"]
-THEOREMS = ['C01_one_version_per_project_all_compiles', 'C01_result_graph_well_formed_all_compiles', 'C01_answer_is_offered_and_satisfies', 'C01_merged_request_is_at_least_as_strong', 'C01_solve_step_sound_partial', 'C01_result_checker_sound', 'C01_refuted_extras_overwrite', 'C01_pins_of_all_constraint_files_merged', 'C01_contradictory_pins_fail', 'C01_excluding_edge_discards_choice', 'C01_node_objects_keep_their_project']
+THEOREMS = ['C01_one_version_per_project_all_compiles', 'C01_result_graph_well_formed_all_compiles', 'C01_answer_is_offered_and_satisfies', 'C01_merged_request_is_at_least_as_strong', 'C01_solve_step_sound_partial', 'C01_result_checker_sound', 'C01_extras_of_one_edge_are_combined', 'C01_pins_of_all_constraint_files_merged', 'C01_contradictory_pins_fail', 'C01_excluding_edge_discards_choice', 'C01_node_objects_keep_their_project']
 MODES = ['calm', 'calm', 'conflict', 'extras', 'dense', 'cascade']
 RULE = ("universes (2-6 projects x 1-4 versions incl. pre/post/dev releases, requirements with the 7 operators, "
         "wildcards, extras, extra- and environment-markers, cycles, unreadable files, misnamed files), 1-3 input files, "
@@ -20,7 +20,7 @@ RULE = ("universes (2-6 projects x 1-4 versions incl. pre/post/dev releases, req
         "distinct = distinct (universe, inputs, constraints, options).")
 TRUSTED_BASE = SP.TRUSTED_BASE
 ASSUMPTIONS = SP.ASSUMPTIONS
-LEVEL_TEXT = "Theorems for all graphs/universes on the Gallina solver model: the repository answer is offered, readable, correctly named and inside the request; the merged request is at least as strong as every current requirer's requirement; hence each solving step (walk-back states included) picks a version every current requirer accepts; soundness of the result checker run on every correspondence outcome. The property's own reading is refuted by a vm_compute witness (edge-reason overwrite loses a requested extra) replayed on /repo as a known finding; pins of several fully pinned constraint files are merged (theorem; defect repaired in /repo 8ac3bda). The global statement 'every final graph satisfies pins_ok' is checked on every case (checker proved sound) but not proved for all runs."
+LEVEL_TEXT = "Theorems for all graphs/universes on the Gallina solver model: the repository answer is offered, readable, correctly named and inside the request; the merged request is at least as strong as every current requirer's requirement; hence each solving step (walk-back states included) picks a version every current requirer accepts; soundness of the result checker run on every correspondence outcome. The former counter-example to the property's own reading (edge-reason overwrite loses a requested extra) is repaired in /repo (reasons of one edge are combined) and kept as a positive vm_compute witness; pins of several fully pinned constraint files are merged (theorem; defect repaired in /repo 8ac3bda). The global statement 'every final graph satisfies pins_ok' is checked on every case (checker proved sound) but not proved for all runs."
 LEVEL_NOTE = ("Trusted: Coq kernel, extraction, OCaml drivers, T1/T2 harness, packaging semantics (validated by the C17 grid), the "
               "measured set-iteration and marker oracles. Modelled, not verified: compile.py, dists.py, versions.py, containers.py.")
 TECHNIQUE = "Rocq theorems on a Gallina model of the solver + vm_compute refutation witnesses + extraction-based whole-compile differential correspondence"
